@@ -190,12 +190,12 @@ struct VMutex {
 	void unlock() {
 		vs_point(VS_UNLOCK, this);
 		if(!held) vs_fail("C12", "mutex:unlock-of-free-mutex", "unlock() of a mutex that is not held");
+		held = false; owner = -1;
 #if VERIF_TSAN
 		__tsan_release(this);
 #else
 		{ int t = vs_self(); if(t >= 0) { hb_tick(); rel = hb().thread[t]; has_rel = true; } }
 #endif
-		held = false; owner = -1;
 	}
 };
 
